@@ -62,8 +62,9 @@ Proof. vm_compute. split; reflexivity. Qed.
 
 (* proved for every document of a sub-language, every world and every positive nesting fuel: text lines, .Bm, .Em and .Sm
    (any arguments), .P with or without a title (inline macros in the title included), display blocks .Bd/.Ed nested
-   to any depth, and headers .Ch/.Pt/.Sh/.Ss with any arguments (numbered or not, with inline macros in the title),
-   XHTML fragment mode.  The output is read by the tag machine of Proofs/Tok.v: it ends in character data with no
+   to any depth, headers .Ch/.Pt/.Sh/.Ss with any arguments (numbered or not, with inline macros in the title), and
+   tables of contents .Tc with any options but -mini (full or summary, numbered or not, titled; -lof/-lot/-lop find no
+   entries in this sub-language), XHTML fragment mode.  The output is read by the tag machine of Proofs/Tok.v: it ends in character data with no
    element left open, and no closing tag ever mismatched (the machine would be stuck in Bad); the block stack and the
    inline scopes are closed at end of file and before each header; unclosed, mismatched or stray .Ed/.Em lines are
    reported by the model and the output still balances.  The two passes agree: the k-th header of pass 2 finds the
